@@ -734,14 +734,21 @@ func genMeshSDF(rng *rand.Rand, kind int) *primShape {
 	if faces == nil {
 		faces = [][3]int{{0, 1, 2}, {0, 3, 1}, {0, 2, 3}, {1, 3, 2}}
 	}
+	signed := 0 // (Mesh.Volume is unsigned)
+	for _, f := range faces {
+		a, b, c := vs[f[0]], vs[f[1]], vs[f[2]]
+		signed += a[0]*(b[1]*c[2]-b[2]*c[1]) - a[1]*(b[0]*c[2]-b[2]*c[0]) + a[2]*(b[0]*c[1]-b[1]*c[0])
+	}
+	// outward orientation, and every face listed from each of its three vertices in turn (which vertex
+	// comes first must not matter)
+	rot := kind / 3 % 3
+	name += fmt.Sprintf(" faces rotated by %d", rot)
 	mesh := model3d.NewMesh()
 	for _, f := range faces {
-		mesh.Add(&model3d.Triangle{v3c(i3f(vs[f[0]])), v3c(i3f(vs[f[1]])), v3c(i3f(vs[f[2]]))})
-	}
-	signed := 0.0 // (Mesh.Volume is unsigned)
-	mesh.Iterate(func(t *model3d.Triangle) { signed += t[0].Dot(t[1].Cross(t[2])) })
-	if signed < 0 {
-		mesh = mesh.InvertNormals()
+		if signed < 0 {
+			f[1], f[2] = f[2], f[1]
+		}
+		mesh.Add(&model3d.Triangle{v3c(i3f(vs[f[rot]])), v3c(i3f(vs[f[(rot+1)%3]])), v3c(i3f(vs[f[(rot+2)%3]]))})
 	}
 	tris := mesh.TriangleSlice()
 	sdf := model3d.MeshToSDF(mesh)
@@ -772,6 +779,16 @@ func genMeshSDF(rng *rand.Rand, kind int) *primShape {
 	}
 	for _, v := range vs {
 		s.special = append(s.special, primSpecial{i3scale(v, 4), "vertex"})
+	}
+	if kind%3 == 0 {
+		// the whole half-unit lattice around the small fixed tetrahedron
+		for x := -10; x <= 6; x += 2 {
+			for y := -6; y <= 6; y += 2 {
+				for z := -6; z <= 4; z += 2 {
+					s.special = append(s.special, primSpecial{[3]int{x, y, z}, "dense"})
+				}
+			}
+		}
 	}
 	return s
 }
@@ -1813,7 +1830,7 @@ func init() {
 		// extruded profiles as distance fields (own stream: the records above do not depend on them)
 		rng2 := rand.New(rand.NewSource(int64(a.int("seed", 1))*7919 + 66))
 		shapes = append(shapes, genProfilePrims(rng2, a.int("n", 4), false)...)
-		for i := 0; i < 2*a.int("n", 4); i++ {
+		for i := 0; i < 9+a.int("n", 4); i++ {
 			shapes = append(shapes, genMeshSDF(rng2, i))
 		}
 		for i, s := range shapes {
